@@ -161,7 +161,8 @@ func getFloatToStringFunction() schema.CallableFunction {
 	funcSchema, err := schema.NewCallableFunction(
 		"floatToString",
 		[]schema.Type{schema.NewFloatSchema(nil, nil, nil)},
-		schema.NewStringSchema(nil, nil, regexp.MustCompile(`^\d+\.\d*$`)),
+		// Digits with an optional sign and an optional fraction, or the special values NaN, +Inf and -Inf.
+		schema.NewStringSchema(nil, nil, regexp.MustCompile(`^(?:-?\d+(?:\.\d*)?|NaN|[+-]Inf)$`)),
 		false,
 		schema.NewDisplayValue(
 			schema.PointerTo("floatToString"),
@@ -199,7 +200,9 @@ func getFloatToFormattedStringFunction() schema.CallableFunction {
 		schema.NewStringSchema(
 			nil,
 			nil,
-			regexp.MustCompile(`^-?(?:0[xX])?\d+(?:\.\d*)?(?:[pPeE][-+]\d{2,3})?$`)),
+			// The mantissa may contain hexadecimal digits ('x', 'X'), the exponent may have any number of
+			// digits ('b' prints binary exponents such as p-1074), and the special values are NaN, +Inf and -Inf.
+			regexp.MustCompile(`^(?:-?(?:0[xX])?[0-9a-fA-F]+(?:\.[0-9a-fA-F]*)?(?:[pPeE][-+]\d+)?|NaN|[+-]Inf)$`)),
 		false,
 		schema.NewDisplayValue(
 			schema.PointerTo("floatToFormattedString"),
